@@ -30,7 +30,8 @@ What the code does (anchors):
 * `File.auto_update_timestamps = b` is a plain assignment (`setAuto`); closing and re-opening keeps
   every attribute and takes the switch from the `open` call (`reopen`);
 * deleting an entity removes it and what it owns, nothing else (`delete`);
-* `create_*(copy_from=x)` makes an entity that carries the stored time stamps of `x` (`copy`);
+* `create_*(copy_from=x)` / `copy_section(x)` makes an entity that carries the stored time stamps of
+  `x`, and copies of everything `x` owns with theirs (`copy`);
 * the getters `created_at` / `updated_at` are `str_to_time(attribute)`, `None` when missing.
 -/
 namespace Nix.Stamps
@@ -87,10 +88,11 @@ inductive Op where
   `array.dimensions[k].unit = …`; for `DimensionLink` — `dim.label = …` / `dim.unit = …` on a dimension
   that is linked to a data object — `e` is that linked data object, whose attribute is written) -/
   | call (e : Nat) (via : Option Cls) (m : Mem) (o : Outcome)
-  /-- `owner.create_<kind>(name, copy_from=src)`: a copy of the live entity `src` inside the live owner
-  `parent` (`H5Group.copy` duplicates the HDF5 object with all its attributes: the copy carries the
-  time stamps of its source, whether or not it keeps the id); leaf kinds only (arrays, frames,
-  properties: what they own is no entity) -/
+  /-- `owner.create_<kind>(name, copy_from=src)` / `owner.copy_section(src)`: a copy of the live entity
+  `src` inside the live owner `parent` (`H5Group.copy` duplicates the HDF5 object with all its
+  attributes and everything below it: the copy and the copies of all entities `src` owns - features of
+  a tag, everything inside a block, sub-sections and properties of a section - carry the time stamps
+  of their sources, whether or not they keep the ids) -/
   | copy (src : Nat) (parent : Nat)
   | forceCreated (e : Nat) (t : TimeArg)
   | forceUpdated (e : Nat) (t : TimeArg)
@@ -146,6 +148,25 @@ def ownedBy (ents : List Ent) (root : Nat) : Nat → Nat → Bool
       | some e => if e.parent == i then false else ownedBy ents root fuel e.parent
       | none => false
 
+/-- the kinds `create_*(copy_from=…)` / `copy_section` can copy -/
+def copyable : Kind → Bool
+  | .dataArray | .dataFrame | .property | .tag | .multiTag | .block | .section => true
+  | _ => false
+
+/-- the live entities that `root` owns (transitively), `root` itself included, with their indices, in
+index order: what `H5Group.copy` duplicates when the HDF5 object of `root` is copied -/
+def subtree (ents : List Ent) (root : Nat) : List (Ent × Nat) :=
+  ents.zipIdx.filter fun x => x.1.alive && ownedBy ents root ents.length x.2
+
+/-- the copy of one entity of the subtree: every stored attribute is kept (`created_at`, `updated_at`
+included); the copy of `src` is owned by `p`, the copy of anything else by the copy of its owner
+(the `k`-th member of the subtree becomes entity `ents.length + k`) -/
+def copyOf (ents : List Ent) (sub : List (Ent × Nat)) (src p : Nat) (x : Ent × Nat) : Ent :=
+  { x.1 with parent := if x.2 == src then p else ents.length + (sub.map (·.2)).idxOf x.1.parent }
+
+def copies (ents : List Ent) (src p : Nat) : List Ent :=
+  (subtree ents src).map (copyOf ents (subtree ents src) src p)
+
 /-- the argument of `force_*_at` as the text that is stored -/
 def timeArgStr (s : State) : TimeArg → Except Err Str
   | .now => timeToStr s.clock
@@ -179,11 +200,8 @@ def step (s : State) : Op → State × Res
   | .copy src p =>
     match aliveAt s src, aliveAt s p with
     | some se, some pe =>
-      if !validParent se.kind pe.kind ||
-         !(se.kind == .dataArray || se.kind == .dataFrame || se.kind == .property) then (s, .bad)
-      else
-        ({ s with ents := s.ents ++ [{ kind := se.kind, parent := p, alive := true,
-                                       created := se.created, updated := se.updated }] }, .done)
+      if !validParent se.kind pe.kind || !copyable se.kind then (s, .bad)
+      else ({ s with ents := s.ents ++ copies s.ents src p }, .done)
     | _, _ => (s, .bad)
   | .call e via m o =>
     match aliveAt s e with
